@@ -2,6 +2,7 @@
    Times are exact decimals (microseconds); the last-digit rounding of binary64 is outside the model. *)
 From WD Require Import Base Wire Protocol Conn Color LetterId Matcher MatcherParse Show Session.
 From WD Require Import ControllerProofs SessionProofs.
+From WD Require Import IsolationRuns StreamSpecA SeparatorRuns.
 Open Scope Z_scope.
 
 (* adding a constant to every time in the log changes nothing that is shown (and nothing in the
@@ -35,3 +36,30 @@ Example C16_ex :
                       [EMsg (s2l "x") (sy 5000000); EMsg (s2l "x") (sy 7500000)]) in
   map (fun l => List.length l) outs = [2%nat; 2%nat].   (* notice+message ; separator+message *)
 Proof. vm_compute. reflexivity. Qed.
+
+(* ---- WHOLE STREAMS (Proofs/SeparatorRuns.v), read off the output alone -------------------------------------------
+   out = with_seps c None (strip out): removing the separators from the output and re-inserting, in front of each
+   shown message, the separator demanded by the gap to the PREVIOUS shown message of the whole output (whatever
+   connection, whatever hidden messages lie in between) gives the output back.  sep_for: gap > 1 s: the separator
+   with that gap; gap = 1 s exactly: OMaybe (binary64 rounding decides in the tool); otherwise nothing; never
+   before the first shown message.  Any filter, breakpoint, colour; message and text lines. *)
+Theorem C16_separators_exact : forall P d st c u g evs, forallb live_event evs = true ->
+  let out := List.concat (snd (run P (top0 d st c u g) evs)) in
+  out = with_seps c None (strip out).
+Proof. exact separators_exact. Qed.
+Print Assumptions C16_separators_exact.
+
+(* ... and nowhere else: every separator line stands immediately before a shown message and is that message's *)
+Theorem C16_separator_only_before_item : forall P d st c u g evs pre x post,
+  forallb live_event evs = true ->
+  List.concat (snd (run P (top0 d st c u g) evs)) = pre ++ x :: post -> is_gap_sep x = true ->
+  exists ci m l post', post = OMsg ci m l :: post' /\ sep_for c (last_after None pre) (m_time m) = [x] /\ ends_clean pre.
+Proof. exact sep_only_before_item. Qed.
+Print Assumptions C16_separator_only_before_item.
+
+(* with commands: every listing is a run of its own (no separator before its first item), and a listing that
+   showed something resets the live view's memory (the reading fixed in DESIGN.md) *)
+Theorem C16_separators_with_commands : forall P evs T, forallb view_event evs = true ->
+  cmds_exact (onT T) (klT T) evs (snd (run P T evs)).
+Proof. exact separators_exact_cmds. Qed.
+Print Assumptions C16_separators_with_commands.
